@@ -1,3 +1,4 @@
 pub mod archive;
 pub mod image;
 pub mod strings;
+pub mod text;
